@@ -82,8 +82,11 @@ Definition is_reserved (k : kind) (i : idv) : bool :=
   end.
 Definition is_silent_id (i : idv) : bool := ival i =? 0.
 
+(* ---------- times as the API holds them: nanoseconds or a fraction (int64 in C++, Z here) ---------- *)
+Inductive ztime := ZNs (n : Z) | ZFr (num den : Z).
+
 (* ---------- block formats ---------- *)
-Record block := mkBlock { bid : idv; brtime : option time; bdur : option time; btag : N }.
+Record block := mkBlock { bid : idv; brtime : option ztime; bdur : option ztime; btag : N }.
 
 (* ---------- elements ---------- *)
 Record elem := mkElem {
@@ -94,8 +97,8 @@ Record elem := mkElem {
   erefs : refkind -> list positive;
   eblocks : N -> list block;        (* the five block vectors of a channel format, by block type 1..5 *)
   ehoa : bool;                      (* AudioPackFormatHoa *)
-  estart : option time;             (* programme Start / object Start *)
-  eend : option time;               (* programme End / object Duration *)
+  estart : option ztime;            (* programme Start / object Start *)
+  eend : option ztime;              (* programme End / object Duration *)
   eparams : bool;                   (* track UID: has SampleRate or BitDepth *)
   etag : N                          (* stands for all other parameters (names, labels, ...) *)
 }.
